@@ -3,8 +3,9 @@ CONSTANTS
   Accepted = {"v1", "v2"}
   Rejected <- RejectedAll
   TruncPoints <- TruncClasses
-  Spellings = {"rel", "abs", "gofile", "both"}
-  Cwds = {"pkg", "root", "sibling", "outside"}
+  Spellings = {"rel", "abs", "gofile", "both", "link", "linkout"}
+  Placement = "file"
+  Cwds = {"pkg", "root", "sibling", "outside", "pkglink"}
   RecordHist = TRUE
   MaxHist = 14
   FlagSets <- AllFlags
